@@ -106,15 +106,17 @@ def _start(rnd):
 
 def _stim(rnd, tier):
     start = _start(rnd)                      # UTC
-    kind = rnd.choice(['day', 'day', 'race', 'race', 'startrace', 'jump', 'jump', 'empty'])
+    kind = rnd.choice(['day', 'day', 'race', 'race', 'startrace', 'jump', 'jump', 'empty', 'cascade'])
     nb = rnd.randint(1, 4)
     blocks, actions = [], []
     horizon = rnd.choice([3, 8, 26, 50]) * 3600
     pin_abs = None
-    if kind in ('race', 'startrace'):
+    if kind in ('race', 'startrace', 'cascade'):
         # a boundary B of block 1 shortly after `when`
         utc1 = rnd.random() < 0.5
         when = 0 if kind == 'startrace' else rnd.choice([5, 600, 4000])
+        if kind == 'cascade':
+            when = rnd.choice([30, 600])
         k_ms = rnd.choice([1, 2, 4, 6, 9])
         b_abs = start + dt.timedelta(seconds=when, milliseconds=k_ms)
         b_clock = b_abs if utc1 else b_abs + dt.timedelta(seconds=TZ)
@@ -122,6 +124,12 @@ def _stim(rnd, tier):
         blocks.append({'kind': 'td', 'utc': utc1, 'cfg': _rand_td(rnd, start, pin)})
         pin_abs = when + k_ms / 1000
         horizon = max(horizon, 7200)
+        if kind == 'cascade':
+            # block 2 shares the boundary with block 1, and the output event of block 1 at that
+            # very boundary reconfigures block 2 (to "nothing configured")
+            blocks[0]['cascade'] = 2
+            blocks.append({'kind': 'td', 'utc': utc1, 'cfg': _rand_td(rnd, start, pin)})
+            nb = max(nb, 2)
     while len(blocks) < nb:
         utc = rnd.random() < 0.5
         if kind == 'empty':
@@ -225,7 +233,10 @@ def execute(stim):
     def mk(i, b):
         c = b['cfg']
         if b['kind'] == 'td':
-            return edzed.TimeDate(f'b{i}', utc=b['utc'], **_td_args(c))
+            kw = {}
+            if b.get('cascade'):
+                kw['on_output'] = edzed.Event(f"b{b['cascade']}", 'reconfig', efilter=edzed.not_from_undef)
+            return edzed.TimeDate(f'b{i}', utc=b['utc'], **_td_args(c), **kw)
         return edzed.TimeSpan(f'b{i}', utc=b['utc'], span=c['span'])
 
     def factory(loop, clock):
@@ -241,7 +252,22 @@ def execute(stim):
                 loc = u + dt.timedelta(seconds=TZ)
                 return u, loc
 
+            known = [b.get_state() for b in blks]
+
+            def cfg_of(i, state):
+                if stim['blocks'][i]['kind'] == 'ts':
+                    return {'span': state}
+                return {'ht': state['times'] is not None, 'times': state['times'] or [],
+                        'hd': state['dates'] is not None, 'dates': state['dates'] or [],
+                        'hw': state['weekdays'] is not None, 'weekdays': state['weekdays'] or []}
+
             def sample():
+                # a block may have been reconfigured by an event of another block
+                for i, b in enumerate(blks):
+                    st_ = b.get_state()
+                    if st_ != known[i]:
+                        known[i] = st_
+                        lines.append({'ev': 'reconfig', 'b': i + 1, 'cfg': cfg_of(i, st_)})
                 tri = [wall(-EPS_US), wall(0), wall(EPS_US)]
                 rec = {'ev': 'sample', 'lt': round((loop.time() - t0) * 1000)}
                 for name, idx in (('utc', 0), ('loc', 1)):
@@ -273,6 +299,7 @@ def execute(stim):
                     blk = blks[a['b'] - 1]
                     kw = _td_args(a['cfg']) if stim['blocks'][a['b'] - 1]['kind'] == 'td' else {'span': a['cfg']['span']}
                     edzed.ExtEvent(blk, 'reconfig').send(**kw)
+                    known[a['b'] - 1] = blk.get_state()
                     lines.append({'ev': 'reconfig', 'b': a['b'], 'cfg': a['cfg']})
                     if a.get('busy'):
                         loop.advance(a['busy'] / 1000)      # the event loop is busy: the cron task runs late
